@@ -36,11 +36,29 @@ RULE = ("Hypothesis-drawn retardances and orientation angles in [-50, 50] rad (p
         "J^H)/2 (vectorised harness arithmetic, one handedness for the whole batch), M(J1 J2) = M(J1) M(J2) and M M^T = I, M00 = 1 (unitary) on "
         "every element, broadcast_kron against the Kronecker product of every pair, pauli_coefficients against tr(sigma_k J)/2 and the "
         "reconstruction on every element, vector_vortex_retarder on an angle map of that size (unitary everywhere, then its Mueller matrices); "
-        "a sample (both ends, both sides of every multiple of 2**15, a strided sweep) against the single-matrix call.")
+        "a sample (both ends, both sides of every multiple of 2**15, a strided sweep) against the single-matrix call.  "
+        "Round-8 hardening, clause vortex: charges that are not integers (the docstring: 'float, typically an integer') - 0.5, 1.5, -0.5, 0.25, 1/3, "
+        "arbitrary floats in [-6.5, 6.5], integer-valued floats, 0, 25, 100.5 - on azimuth maps in conventions other than arctan2's (-pi, pi]: "
+        "[0, 2 pi), measured from another axis (+ offset up to 10 pi, not wrapped), an unwrapped spiral (+ 2 pi per ring), several turns "
+        "(+-12 pi); every pixel of the batched plate against the pixel-by-pixel construction sin(d/2) HWP(charge theta / 2) - i cos(d/2) I "
+        "conjugated by R(rotate) (Mawet et al. 2009 Eq. 7, cited by the docstring): (a) harness closed form from cos / sin of charge * theta[pixel], "
+        "(b) the same construction from the library's scalar half_wave_plate / jones_rotation_matrix, (c) the library's scalar plate of charge 1 at "
+        "charge * theta wrapped into (-pi, pi] by the harness; buckets name the class (...:non-integer-charge:azimuth-outside-principal-range); another plate "
+        "(other charge, on another or the very same theta object) or caught failing requests before the checked call; the theta array given new "
+        "angles in place between two calls (...:after-theta-edited-in-place); the same in clause large_batches on > 2**15 pixels (every pixel, vectorised).  "
+        "Other clauses: truthy / falsy flags that are not the objects True / False (0, 1, numpy booleans; positional and keyword) for "
+        "jones_to_mueller(broadcast=) and linear_pol_vector(degrees=); one array object for both factors of broadcast_kron and one 0-d array as "
+        "retardance and orientation of linear_retarder (vs an equal copy and the closed form); polarised propagation with numpy.fft / a transforms-only "
+        "module behind the backend shim (not generated: angular_spectrum on the transforms-only backend, where the routine itself raises on the unchanged "
+        "code - fixes/C20/03-angular-spectrum-fftfreq-fallback, see BACKEND_GAPS); clause burst: 40-300 requests to one constructor (or all in turn) with exact repeats, parameters a relative 3e-7 .. 1e-4 next to "
+        "earlier ones and re-visits of an early request every 2-17 calls, every answer against the harness' closed form.  Non-trivial (vortex) = "
+        "retardance other than half a wave, or a non-integer charge on an azimuth map that leaves (-pi, pi].")
 ASSUMPTIONS = ["numpy linear algebra (matmul, QR, kron, trace) is correct",
                "the rotation matrix convention is [[cos, sin], [-sin, cos]] (pinned by the repository's own test at 45 deg)",
                "either handedness convention (sign of S3) is accepted for the Jones-to-Mueller map",
                "theta passed to vector_vortex_retarder is an ndarray, as documented (float64, float32 or integer valued)",
+               "the vortex plate of charge q at azimuth theta is Mawet et al. (2009) Eq. 7 as cited by the docstring: sin(d/2) [[cos q theta, sin q theta], [sin q theta, -cos q theta]] "
+               "- i cos(d/2) I, for any real q and any real theta (no wrapping of theta is implied by the documentation)",
                "with prysm.conf.config.precision = 32, or float32 / complex64 inputs, the laws are asserted at float32 tolerance (1e-4)"]
 
 TWO_PI = 2 * math.pi
@@ -244,6 +262,14 @@ def _check_retarder(case, ctx):
     U.check_close(np.asarray(ctx.call(pol.jones_rotation_matrix, _arg(t, ht))), R1, 1e-14, 'jones_rotation_matrix:aliased-state',
                   'jones_rotation_matrix(%r) again, after the previous result was overwritten by the caller' % t, atol=1e-15)
     U.check_close(np.asarray(build(t, shape_arg, (hd, ht))), Jb_keep, 1e-14, kind + ':aliased-state', what + ' again, after the previous result was overwritten by the caller', atol=1e-15)
+    # one 0-d array object given as retardance and as orientation (equal numbers, the same object): a function of the values
+    if kind == 'linear' and case.get('same_object', True):
+        z = np.array(float(t))
+        Jz = np.asarray(ctx.call(pol.linear_retarder, z, z))
+        Jc = np.asarray(ctx.call(pol.linear_retarder, z, z.copy()))
+        U.check_close(Jz, rot(-t) @ np.diag([1, np.exp(1j * t)]) @ rot(t), _tol(1e-12, prec), 'linear:same-object', 'linear_retarder(z, z) with one 0-d array z = %r for both parameters vs R(-z) diag(1, e^{iz}) R(z)' % t)
+        U.check_equal(Jz, Jc, 'linear:same-object', 'linear_retarder(z, z) vs linear_retarder(z, z.copy()), z = %r' % t)
+        ctx.require(float(z) == float(t) and z.shape == (), 'linear:argument-modified', 'the 0-d array given as retardance and theta was modified: %r -> %r' % (t, z))
     # spatially varying retardance (array of exactly the batch shape) == element by element; special retardances among generic ones
     if kind == 'linear' and shape is not None:
         adt = np.dtype(case.get('adtype', 'float64'))
@@ -281,25 +307,49 @@ def _check_retarder(case, ctx):
 CHARGES = [1, -1, 2, -2, 3, -3, 4, -4, 5, -5, 6, -6, 0.5, -0.5, 1.5, -1.5, 2.5, 3.5, -4.5, 5.5]
 
 
+# round-8 hardening: the charge is "float, typically an integer" - fractional vortices (0.5, 1.5, -0.5), arbitrary floats, integer-valued
+# floats, zero and large charges; the azimuth map in conventions other than numpy.arctan2's (-pi, pi]: [0, 2 pi), measured from another
+# axis (+ offset, not wrapped), an unwrapped spiral (+ 2 pi per ring), several turns
+CHARGES2 = [0.5, -0.5, 1.5, -1.5, 0.25, 1.0 / 3.0, -2.75, 2.0, -3.0, 0, 0.0, 25, 100.5, 1e-3, 0.5, 1.5]
+THETA_KINDS = ['random', 'grid', 'special-mix', 'zero-to-2pi', 'offset', 'spiral', 'turns', 'zero-to-2pi', 'offset']
+OFFSETS = [math.pi / 2, math.pi, TWO_PI, 3.3, -4.0, 10 * math.pi, 0.1, -math.pi, 7.0]
+
+
 def strat_vortex(tier):
     mx = 5 if tier == 'quick' else 9
     return st.fixed_dictionaries({
-        'charge': st.sampled_from(CHARGES), 'tshape': st.one_of(st.just([]), st.lists(st.integers(1, mx), min_size=1, max_size=3)),
-        'theta_kind': st.sampled_from(['random', 'grid', 'special-mix']), 'seed': U.seeds,
+        'charge': st.one_of(st.sampled_from(CHARGES), st.sampled_from(CHARGES), st.sampled_from(CHARGES2), U.nice_float(-6.5, 6.5)),
+        'tshape': st.one_of(st.just([]), st.lists(st.integers(1, mx), min_size=1, max_size=3)),
+        'theta_kind': st.sampled_from(THETA_KINDS), 'offset': st.sampled_from(OFFSETS), 'turns': st.integers(1, 6),
+        'pre': st.sampled_from(['none', 'none', 'other-charge', 'same-theta-other-charge', 'failed-call']), 'edit': st.booleans(), 'seed': U.seeds,
         'ret': st.one_of(ANG, st.just(math.pi), st.just(None)), 'rotate': st.one_of(st.just(0.0), ANG), 'default_rotate': st.booleans(),
         'tdtype': st.sampled_from(['float64', 'float64', 'float64', 'float32', 'int64']), 'tlayout': U.layouts,
         'how': st.tuples(HOW, HOW, HOW).map(list), 'kwargs': st.booleans(), 'prec': PREC, 'pre32': st.booleans()})
 
 
-def _vortex_theta(case):
+def _vortex_theta(case, salt=5):
     shp = tuple(case['tshape'])
-    if case['theta_kind'] == 'grid' and len(shp) >= 2:
+    kind = case['theta_kind']
+    if kind in ('grid', 'zero-to-2pi', 'offset', 'spiral') and len(shp) >= 2:
         ny, nx = shp[-2], shp[-1]
         y = (np.arange(ny) - ny // 2)[:, None] * 1.0
         x = (np.arange(nx) - nx // 2)[None, :] * 1.0
         t = np.arctan2(y, x) + np.zeros(shp)
-        return np.ascontiguousarray(t)
-    t = U.rng_of(case['seed'], 5).uniform(-math.pi, math.pi, shp)
+        ring = np.rint(np.hypot(y, x) / 1.5) + np.zeros(shp)
+        if kind == 'grid':
+            return np.ascontiguousarray(t)
+    else:
+        t = U.rng_of(case['seed'], salt).uniform(-math.pi, math.pi, shp)
+        ring = U.rng_of(case['seed'], salt + 100).integers(-3, 4, shp).astype(float)
+    if kind == 'zero-to-2pi':        # the [0, 2 pi) convention
+        return np.ascontiguousarray(np.mod(t, TWO_PI))
+    if kind == 'offset':             # azimuth measured from another axis, not wrapped back
+        return np.ascontiguousarray(t + case.get('offset', 0.0))
+    if kind == 'spiral':             # unwrapped: one more turn per ring
+        return np.ascontiguousarray(t + TWO_PI * ring)
+    if kind == 'turns':              # several turns either way
+        n = case.get('turns', 1)
+        return U.rng_of(case['seed'], salt).uniform(-n * TWO_PI, n * TWO_PI, shp)
     if case['theta_kind'] == 'special-mix':
         t = np.asarray(_plant(t, case['seed'], 15, [0.0, math.pi, -math.pi, math.pi / 2, -math.pi / 2, TWO_PI, 1e-300], p=0.5))
     return t
@@ -333,7 +383,12 @@ def _check_vortex(case, ctx):
     qa = _arg(q, hq)
     r_eff = math.pi if ret is None else ret
     halfwave = abs(math.cos(r_eff / 2)) < 1e-9
-    ctx.nt(not halfwave)
+    outside = bool(keep.size) and bool(np.any((keep.astype(np.float64) > math.pi) | (keep.astype(np.float64) <= -math.pi)))
+    qclass = 'integer' if float(q) == int(q) else ('half-integer' if float(2 * q) == int(2 * q) else 'other-non-integer')
+    ctx.nt(not halfwave or (qclass != 'integer' and outside))
+    ctx.label('charge:' + qclass, 'azimuth:' + ('outside (-pi, pi]' if outside else 'inside (-pi, pi]'), 'pre:' + case.get('pre', 'none'),
+              '%s-charge, azimuth %s (-pi, pi]' % ('integer' if qclass == 'integer' else 'non-integer', 'outside' if outside else 'inside'),
+              'charge=0' if q == 0 else ('|charge|>6' if abs(q) > 6 else '0<|charge|<=6'))
     ctx.label('halfwave' if halfwave else 'general-retardance', 'ndim=%d' % theta.ndim, 'half-int' if q != int(q) else 'int-charge',
               'rotated' if rho != 0 else 'unrotated', 'theta:' + case['theta_kind'], 'tdtype:%s' % tdt, 'tlayout:' + case.get('tlayout', 'C'),
               'prec:%d' % prec, 'charge-as:' + hq, '|charge|=1' if abs(q) == 1 else '|charge|!=1')
@@ -343,6 +398,20 @@ def _check_vortex(case, ctx):
         if case.get('kwargs', False):
             return ctx.call(pol.vector_vortex_retarder, charge=qa, theta=th, **kws)
         return ctx.call(pol.vector_vortex_retarder, qa, th, **kws)
+    # history inside one process: another plate first (other charge / retardance; on another or on the very same azimuth array), or
+    # requests that fail and are caught (no azimuth map, a Python float where the array is documented)
+    pre = case.get('pre', 'none')
+    if pre == 'other-charge':
+        ctx.call(pol.vector_vortex_retarder, 3 if q != 3 else 2, _vortex_theta(case, salt=45), 1.0, 0.3)
+    elif pre == 'same-theta-other-charge':
+        ctx.call(pol.vector_vortex_retarder, (q + 1) if float(q) != int(q) else 0.5, theta, retardance=0.7)
+    elif pre == 'failed-call':
+        for bad in (None, 0.3):
+            try:
+                pol.vector_vortex_retarder(qa, bad)
+                ctx.label('failed-call:did-not-raise')
+            except Exception:
+                ctx.label('failed-call:raised')
     V_raw = vvr(theta, kw)
     V = np.array(V_raw, copy=True)
     U.check_shape(V, theta.shape + (2, 2), 'vector_vortex_retarder', what)
@@ -359,6 +428,38 @@ def _check_vortex(case, ctx):
         # the element is defined by the value of its angle: built from a float64 0-d array whatever the dtype of the batch
         one = np.asarray(vvr(np.array(float(keep[idx])) if tdt != np.float64 else np.array(keep[idx]), kw))
         U.check_close(V[idx], one, _tol(1e-13, eff) * amp, bucket + ':batch-vs-element', '%s element %s' % (what, idx), atol=_tol(1e-14, eff) * amp)
+    # the plate is the pixel-by-pixel construction sin(d/2) HWP(charge theta / 2) - i cos(d/2) I, conjugated by R(rotate) (Mawet et al. (2009),
+    # Eq. 7, as cited by the docstring): every pixel against (a) the harness' closed form from cos / sin of charge * theta[pixel] (the
+    # product formed in theta's precision, as documented for a float charge), (b) the same construction from the library's own scalar
+    # half_wave_plate / jones_rotation_matrix, (c) the library's scalar plate of charge 1 at the angle charge * theta wrapped by the
+    # harness into (-pi, pi] (the plate depends on theta through charge * theta modulo 2 pi only).  Non-integer charges on azimuth maps
+    # outside (-pi, pi] are where a shortcut through exp(i theta) ** charge or a wrapped angle goes wrong.
+    if case.get('elementwise', True) and keep.size:
+        k64 = keep.astype(np.float64)
+        prod = (keep * q).astype(np.float64) if tdt == np.float32 else k64 * float(q)      # float32 maps: the product as float32 arithmetic gives it
+        cq, sq = np.cos(prod), np.sin(prod)
+        core = np.empty(theta.shape + (2, 2), complex)
+        core[..., 0, 0], core[..., 0, 1], core[..., 1, 0], core[..., 1, 1] = cq, sq, sq, -cq
+        core = math.sin(r_eff / 2) * core - 1j * math.cos(r_eff / 2) * I2
+        closed = rot(-rho) @ core @ rot(rho)
+        cb = bucket + ':batch-vs-pixel-construction' + ('' if qclass == 'integer' else ':non-integer-charge') + (':azimuth-outside-principal-range' if outside else '')
+        tol_c = _tol(1e-12, eff) * amp
+        U.check_close(V, closed, tol_c, cb, '%s vs R(-rho) [sin(d/2) [[c, s], [s, -c]] - i cos(d/2) I] R(rho) with c, s = cos, sin(charge theta) of every pixel' % what, atol=tol_c)
+        hd = rot(-rho) if rho == 0 else np.asarray(ctx.call(pol.jones_rotation_matrix, -rho)).astype(complex)
+        hr = rot(rho) if rho == 0 else np.asarray(ctx.call(pol.jones_rotation_matrix, rho)).astype(complex)
+        for n, idx in enumerate(np.ndindex(*theta.shape)):
+            if n >= 12:
+                break
+            phi = float(prod[idx])
+            hwp = np.asarray(ctx.call(pol.half_wave_plate, phi / 2)).astype(complex)
+            built = hd @ (math.sin(r_eff / 2) * hwp - 1j * math.cos(r_eff / 2) * I2) @ hr
+            U.check_close(V[idx], built, tol_c, cb, '%s pixel %s (azimuth %r) vs sin(d/2) half_wave_plate(charge theta / 2) - i cos(d/2) I, conjugated by the rotation' % (what, idx, float(k64[idx])), atol=tol_c)
+            wrapped = math.remainder(phi, TWO_PI)
+            kw1 = dict(kw)
+            kw1.pop('rotate', None)
+            one1 = np.asarray(ctx.call(pol.vector_vortex_retarder, 1, np.array(wrapped), rotate=rho, **kw1)).astype(complex)
+            tol_w = tol_c + 4 * abs(phi) * 2.3e-16
+            U.check_close(V[idx], one1, tol_w, cb, '%s pixel %s (azimuth %r) vs the plate of charge 1 at the angle charge * theta wrapped into (-pi, pi] = %r' % (what, idx, float(k64[idx]), wrapped), atol=tol_w)
     # rotate == conjugation with the rotation matrix
     kw0 = dict(kw)
     kw0['rotate'] = 0.0
@@ -371,6 +472,24 @@ def _check_vortex(case, ctx):
     np.asarray(V_raw)[...] = 7
     U.check_close(np.asarray(vvr(theta, kw)), V, 1e-14, 'vector_vortex_retarder:aliased-state', what + ' again, after the previous result was overwritten by the caller', atol=1e-15)
     ctx.require(np.array_equal(theta, keep), 'vector_vortex_retarder:theta-mutated', '%s modified the caller\'s theta array in place (later call)' % what)
+    # the caller edits its azimuth map in place (same array object, new angles in another convention): the next plate follows the data
+    if case.get('edit', False) and theta.ndim and theta.size:
+        new = _vortex_theta(dict(case, theta_kind={'turns': 'offset'}.get(case['theta_kind'], 'turns')), salt=55)
+        new = np.rint(new).astype(tdt) if tdt.kind == 'i' else new.astype(tdt)
+        theta[...] = new
+        k2 = theta.copy()
+        V2 = np.asarray(vvr(theta, kw))
+        U.check_shape(V2, theta.shape + (2, 2), 'vector_vortex_retarder', what)
+        prod = (k2 * q).astype(np.float64) if tdt == np.float32 else k2.astype(np.float64) * float(q)
+        cq, sq = np.cos(prod), np.sin(prod)
+        core = np.empty(theta.shape + (2, 2), complex)
+        core[..., 0, 0], core[..., 0, 1], core[..., 1, 0], core[..., 1, 1] = cq, sq, sq, -cq
+        closed = rot(-rho) @ (math.sin(r_eff / 2) * core - 1j * math.cos(r_eff / 2) * I2) @ rot(rho)
+        amp2 = 1.0 + (abs(q) * float(np.max(np.abs(k2))) if tdt == np.float32 else 0.0)
+        ctx.label('theta-edited-in-place')
+        U.check_close(V2, closed, _tol(1e-12, eff) * amp2, 'vector_vortex_retarder:after-theta-edited-in-place',
+                      '%s called again after the same theta array had been given new angles in place' % what, atol=_tol(1e-12, eff) * amp2)
+        ctx.require(np.array_equal(theta, k2), 'vector_vortex_retarder:theta-mutated', '%s modified the caller\'s theta array in place (after the edit)' % what)
 
 
 # ---- polariser / diattenuator --------------------------------------------------------------------
@@ -405,8 +524,13 @@ def _check_polarizer(case, ctx):
                 'polariser at %r rad, linear input at %r rad: transmitted %.17g, cos^2 = %.17g' % (t, phi, I, math.cos(t - phi) ** 2))
     v = np.asarray(ctx.call(pol.linear_pol_vector, math.degrees(phi)))
     U.check_close(v, e, _tol(1e-12, prec), 'linear_pol_vector', 'linear_pol_vector(%r deg)' % math.degrees(phi), atol=_tol(1e-13, prec) + 4 * float(np.spacing(abs(phi))))
-    vr = np.asarray(ctx.call(pol.linear_pol_vector, phi, False))
-    U.check_close(vr, e, _tol(1e-12, prec), 'linear_pol_vector', 'linear_pol_vector(%r, degrees=False)' % phi, atol=_tol(1e-13, prec))
+    pick = int(abs(phi) * 1e6) % 3
+    off, on = [False, 0, np.False_][pick], [True, 1, np.True_][pick]
+    ctx.label('degrees-flag-as:' + type(off).__name__)
+    vr = np.asarray(ctx.call(pol.linear_pol_vector, angle=phi, degrees=off) if usekw else ctx.call(pol.linear_pol_vector, phi, off))
+    U.check_close(vr, e, _tol(1e-12, prec), 'linear_pol_vector', 'linear_pol_vector(%r, degrees=%r)' % (phi, off), atol=_tol(1e-13, prec))
+    vd = np.asarray(ctx.call(pol.linear_pol_vector, math.degrees(phi), degrees=on))
+    U.check_close(vd, e, _tol(1e-12, prec), 'linear_pol_vector', 'linear_pol_vector(%r deg, degrees=%r)' % (math.degrees(phi), on), atol=_tol(1e-13, prec) + 4 * float(np.spacing(abs(phi))))
     I2_ = float(np.sum(np.abs(P @ vr) ** 2))
     ctx.require(abs(I2_ - math.cos(t - phi) ** 2) <= _tol(1e-11, prec) + 4 * float(np.spacing(abs(t) + abs(phi))), 'linear_polarizer:malus',
                 'Malus with linear_pol_vector: %.17g vs %.17g' % (I2_, math.cos(t - phi) ** 2))
@@ -577,8 +701,13 @@ def _check_mueller(case, ctx):
             break
         one = np.asarray(ctx.call(pol.jones_to_mueller, J1[idx])).astype(np.float64)
         U.check_close(M1[idx], one, rt * 0.1, 'jones_to_mueller:batch-vs-element', 'element %s of batch %s' % (idx, B), atol=rt * 0.1 * S1)
-        nb = np.asarray(ctx.call(pol.jones_to_mueller, J1[idx], False)).astype(np.float64)
-        U.check_close(nb, one, rt * 0.1, 'jones_to_mueller:broadcast-flag', 'broadcast=False vs True', atol=rt * 0.1 * S1)
+        # the flag in the spellings a caller may use: the objects False / True, 0 / 1, numpy booleans; positional and keyword
+        off, on = [False, 0, np.False_][n % 3], [True, 1, np.True_][(n // 3) % 3]
+        nb = np.asarray(ctx.call(pol.jones_to_mueller, J1[idx], off) if n % 2 else ctx.call(pol.jones_to_mueller, J1[idx], broadcast=off)).astype(np.float64)
+        U.check_close(nb, one, rt * 0.1, 'jones_to_mueller:broadcast-flag', 'broadcast=%r vs the default' % (off,), atol=rt * 0.1 * S1)
+        if case.get('flags', True):
+            yb = np.asarray(ctx.call(pol.jones_to_mueller, J1[idx], broadcast=on)).astype(np.float64)
+            U.check_close(yb, one, rt * 0.1, 'jones_to_mueller:broadcast-flag', 'broadcast=%r vs the default' % (on,), atol=rt * 0.1 * S1)
         m00 = 0.5 * float(np.sum(np.abs(W1[idx]) ** 2))
         if m00 > 0:
             ea, eb = U.relerr(one, mueller_ref(W1[idx], 1)), U.relerr(one, mueller_ref(W1[idx], -1))
@@ -591,6 +720,12 @@ def _check_mueller(case, ctx):
         tol00 = rt * max(1, m00) if (e1, e2) == (0, 0) or 'scale' not in case else rt * m00
         ctx.require(abs(one[0, 0] - m00) <= tol00, 'jones_to_mueller:M00', 'M00=%r, sum|J|^2/2=%r' % (one[0, 0], m00))
     ctx.require(len(hands) <= 1, 'jones_to_mueller:definition', 'handedness convention differs between elements of one batch')
+    if case.get('flags', True):
+        # the whole batch with the flag spelled as a truthy object that is not True
+        on = [1, np.True_, True][seed % 3]
+        Mb = np.asarray(ctx.call(pol.jones_to_mueller, J1, broadcast=on) if seed % 2 else ctx.call(pol.jones_to_mueller, J1, on))
+        U.check_shape(Mb, B + (4, 4), 'jones_to_mueller:broadcast-flag', 'jones_to_mueller(batch %s, broadcast=%r)' % (B, on))
+        U.check_close(Mb.astype(np.float64), M1, rt * 0.1, 'jones_to_mueller:broadcast-flag', 'jones_to_mueller(batch %s, broadcast=%r) vs the default' % (B, on), atol=rt * 0.1 * S1)
     if kind == 'unitary' and jdt.kind == 'c':
         for J, M in ((J1, M1), (J2, M2)):
             e = M @ np.swapaxes(M, -1, -2)
@@ -603,6 +738,16 @@ def _check_mueller(case, ctx):
         if n >= 24:
             break
         U.check_close(K[idx], np.kron(W1[idx], W2[idx]), rt * 0.1, 'broadcast_kron', 'element %s of batch %s vs numpy.kron' % (idx, B), atol=1e-15 * s1 * s2)
+    # the same batch object for both factors (J (x) J), against numpy.kron of every element with itself and against an equal copy
+    if case.get('same_object', True) and abs(e1) <= 100:
+        K11 = np.asarray(ctx.call(pol.broadcast_kron, J1, J1))
+        U.check_shape(K11, B + (4, 4), 'broadcast_kron:same-object')
+        K1c = np.asarray(ctx.call(pol.broadcast_kron, J1, J1.copy()))
+        U.check_equal(K11, K1c, 'broadcast_kron:same-object', 'broadcast_kron(J, J) with one array object for both factors vs broadcast_kron(J, J.copy()), batch %s dtype %s' % (B, jdt))
+        for n, idx in enumerate(np.ndindex(*B)):
+            if n >= 24:
+                break
+            U.check_close(K11[idx], np.kron(W1[idx], W1[idx]), rt * 0.1, 'broadcast_kron:same-object', 'element %s of batch %s: J (x) J vs numpy.kron' % (idx, B), atol=1e-15 * s1 * s1)
     _unchanged(ctx, J1, k1, 'broadcast_kron', 'the Jones batch J1')
     _unchanged(ctx, J2, k2, 'broadcast_kron', 'the Jones batch J2')
     # the first Mueller batch belongs to the caller
@@ -677,7 +822,26 @@ FUNCS = ['focus', 'unfocus', 'focus_fixed_sampling', 'unfocus_fixed_sampling', '
 SHIFTS = [None, None, [0.0, 0.0], [0.3, -0.7], [1.5, 0.0], [0.0, -2.2], [0.4, 0.4]]
 
 
+# (routine, FFT backend) pairs that are not generated because the routine itself - not the polarised adapter - fails there on the
+# unchanged code: angular_spectrum_transfer_function calls fft.fftfreq directly instead of fttools.fftfreq, so it raises AttributeError
+# with a backend that provides the transforms only (/verif/fixes/C20/03-angular-spectrum-fftfreq-fallback.*; the check itself honours
+# any backend named in a case, so the saved replays show the failure and pass on the repaired tree).  Empty this set once that
+# repair is in the repository.
+BACKEND_GAPS = {('angular_spectrum', 'transforms-only')}
+
+
+def _avoid_gap(case):
+    names = [case['func']] if 'func' in case else sorted({n for op in case['ops'] for n in (FUNCS if op == 'default' else op)})
+    if any((n, case['backend']) in BACKEND_GAPS for n in names):
+        return dict(case, backend='numpy')
+    return case
+
+
 def strat_prop(tier):
+    return _strat_prop(tier).map(_avoid_gap)
+
+
+def _strat_prop(tier):
     mx = 10 if tier == 'quick' else 24
     ax = U.axis_len(mx, 2)
     return st.fixed_dictionaries({
@@ -687,7 +851,7 @@ def strat_prop(tier):
         'z': st.sampled_from([0.0, 1.0, 25.0, -3.0]),
         'edtype': st.sampled_from(['complex128', 'complex128', 'complex128', 'complex64', 'float64']),
         'elayout': st.sampled_from(['jones-last', 'jones-last', 'components-first', 'F', 'strided']),
-        'shift': st.sampled_from(SHIFTS), 'tf': st.booleans(), 'escale': st.sampled_from([0, 0, 0, -150, 150, -300])})
+        'shift': st.sampled_from(SHIFTS), 'tf': st.booleans(), 'escale': st.sampled_from([0, 0, 0, -150, 150, -300]), 'backend': U.fft_backends})
 
 
 def _field(seed, shape, salt, edt, lay, e):
@@ -708,6 +872,12 @@ def _field(seed, shape, salt, edt, lay, e):
 
 def check_prop(case, ctx):
     """jones_adapter(f)(E)[..., i, j] == f(E[..., i, j]) for every supported routine; 2-D input passes through unchanged."""
+    with U.fft_backend(case.get('backend', 'scipy')):
+        ctx.label('fft:' + case.get('backend', 'scipy'))
+        _check_prop(case, ctx)
+
+
+def _check_prop(case, ctx):
     from prysm.x import polarization as pol
     from prysm import propagation as P
     name, shape, seed = case['func'], tuple(case['shape']), case['seed']
@@ -798,6 +968,10 @@ def check_prop(case, ctx):
 
 # ---- add_jones_propagation: sequences of calls ---------------------------------------------------
 def strat_global(tier):
+    return _strat_global(tier).map(_avoid_gap)
+
+
+def _strat_global(tier):
     mx = 8 if tier == 'quick' else 16
     ax = U.axis_len(mx, 2)
     sub = st.lists(st.sampled_from(FUNCS), min_size=0, max_size=5, unique=True)
@@ -808,7 +982,7 @@ def strat_global(tier):
         'Q': st.sampled_from([1, 2, 1, 3]), 'out': st.one_of(st.integers(2, mx), st.tuples(st.integers(2, mx), st.integers(2, mx)).map(list)),
         'dx': st.sampled_from([0.1, 0.25, 1.0]), 'z': st.sampled_from([0.0, 1.0, 25.0, -3.0]),
         'edtype': st.sampled_from(['complex128', 'complex128', 'complex64', 'float64']),
-        'elayout': st.sampled_from(['jones-last', 'jones-last', 'components-first', 'F', 'strided'])})
+        'elayout': st.sampled_from(['jones-last', 'jones-last', 'components-first', 'F', 'strided']), 'backend': U.fft_backends})
 
 
 def _restore_namespace(mod, snap):
@@ -834,7 +1008,9 @@ def check_global(case, ctx):
     # prysm.propagation are the originals (and are put back whatever happens)
     pol = importlib.reload(pol)
     try:
-        _check_global(case, ctx, pol, P, {n_: snap[n_] for n_ in FUNCS}, Violation)
+        with U.fft_backend(case.get('backend', 'scipy')):
+            ctx.label('fft:' + case.get('backend', 'scipy'))
+            _check_global(case, ctx, pol, P, {n_: snap[n_] for n_ in FUNCS}, Violation)
     finally:
         _restore_namespace(P, snap)
         importlib.reload(pol)
@@ -853,12 +1029,14 @@ def _check_global(case, ctx, pol, P, orig, Violation):
     low = edt == np.complex64
     rt = 1e-4 if low else 1e-13
     # the component-wise reference, from the routines as they were before anything was adapted
-    ref = {}
-    for name in FUNCS:
-        a, k = args[name]
-        ref[name] = [[np.asarray(ctx.call(orig[name], np.ascontiguousarray(Ekeep[..., i, j]), *a, **k)) for j in range(2)] for i in range(2)]
     ops = case['ops']
     names_of = [list(FUNCS) if op == 'default' else list(op) for op in ops]
+    ref = {}
+    for name in FUNCS:
+        if not any(name in nm for nm in names_of):
+            continue     # (never requested in this case: not needed)
+        a, k = args[name]
+        ref[name] = [[np.asarray(ctx.call(orig[name], np.ascontiguousarray(Ekeep[..., i, j]), *a, **k)) for j in range(2)] for i in range(2)]
     ctx.nt(any(names_of))
     seen = set()
     grows = False          # a later call asks for routines that were not requested before, together with some that were
@@ -914,6 +1092,92 @@ def _check_global(case, ctx, pol, P, orig, Violation):
         _unchanged(ctx, E, Ekeep, 'add_jones_propagation', 'the polarised field')
 
 
+# ---- very many requests in one process ------------------------------------------------------------------
+BURST_CTORS = ['rotation', 'retarder', 'hwp', 'qwp', 'polarizer', 'diattenuator', 'vortex', 'pauli', 'mueller', 'mixed', 'mixed', 'mixed']
+
+
+def strat_burst(tier):
+    return st.fixed_dictionaries({'n': st.integers(40, 300), 'seed': U.seeds, 'ctor': st.sampled_from(BURST_CTORS), 'revisit': st.integers(0, 5),
+                                  'stride': st.integers(2, 17), 'shape': SHAPE_OR_NONE, 'near': st.sampled_from([1e-6, 1e-5, 1e-4, 3e-7])})
+
+
+def check_burst(case, ctx):
+    """40-300 distinct small requests to one constructor (or all of them in turn), re-visits of an early request in between, parameters that
+    repeat exactly or differ by a relative 1e-6 .. 1e-4 from an earlier one: every answer equals the harness' closed form."""
+    with U.precision(64):
+        _check_burst(case, ctx)
+
+
+def _check_burst(case, ctx):
+    from prysm.x import polarization as pol
+    n, seed, ctor, shape = case['n'], case['seed'], case['ctor'], case['shape']
+    r = U.rng_of(seed, 90)
+    t = r.uniform(-7, 7, n)
+    d = r.uniform(-7, 7, n)
+    al = r.uniform(0, 1, n)
+    # every fifth request repeats an earlier angle exactly, every seventh is next to an earlier one
+    for i in range(5, n, 5):
+        t[i] = t[int(r.integers(0, i))]
+    for i in range(7, n, 7):
+        t[i] = t[int(r.integers(0, i))] * (1 + case['near'])
+    charges = [1, 2, -1, 0.5, 3, 1.5]
+    ctx.nt(True)
+    ctx.label('burst:' + ctor, 'requests:%d+' % (n // 50 * 50), 'shape=None' if shape is None else 'shape:%dd' % len(shape))
+    hands = set()
+
+    def request(i):
+        """(what, result, expected) of the i-th request"""
+        kind = ctor if ctor != 'mixed' else BURST_CTORS[i % 9]
+        ti, di, ai = float(t[i]), float(d[i]), float(al[i])
+        if kind == 'rotation':
+            return 'jones_rotation_matrix(%r, %r)' % (ti, shape), ctx.call(pol.jones_rotation_matrix, ti, shape), rot(ti)
+        if kind == 'retarder':
+            return 'linear_retarder(%r, %r, %r)' % (di, ti, shape), ctx.call(pol.linear_retarder, di, ti, shape), rot(-ti) @ np.diag([1, np.exp(1j * di)]) @ rot(ti)
+        if kind == 'hwp':
+            return 'half_wave_plate(%r, %r)' % (ti, shape), ctx.call(pol.half_wave_plate, ti, shape), rot(-ti) @ np.diag([1, -1]) @ rot(ti)
+        if kind == 'qwp':
+            return 'quarter_wave_plate(%r, %r)' % (ti, shape), ctx.call(pol.quarter_wave_plate, ti, shape), rot(-ti) @ np.diag([1, 1j]) @ rot(ti)
+        if kind == 'polarizer':
+            return 'linear_polarizer(%r, %r)' % (ti, shape), ctx.call(pol.linear_polarizer, ti, shape), rot(-ti) @ np.diag([1, 0]) @ rot(ti)
+        if kind == 'diattenuator':
+            return 'linear_diattenuator(%r, %r, %r)' % (ai, ti, shape), ctx.call(pol.linear_diattenuator, ai, ti, shape), rot(-ti) @ np.diag([1, ai]) @ rot(ti)
+        if kind == 'pauli':
+            return 'pauli_spin_matrix(%d, %r)' % (i % 4, shape), ctx.call(pol.pauli_spin_matrix, i % 4, shape), SIG[i % 4]
+        if kind == 'vortex':
+            q = charges[i % len(charges)]
+            th = np.array([ti, di, ti + di])
+            c_, s_ = np.cos(th * q), np.sin(th * q)
+            core = np.empty((3, 2, 2), complex)
+            core[:, 0, 0], core[:, 0, 1], core[:, 1, 0], core[:, 1, 1] = c_, s_, s_, -c_
+            want = rot(-ai) @ (math.sin(di / 2) * core - 1j * math.cos(di / 2) * I2) @ rot(ai)
+            return 'vector_vortex_retarder(%r, %r, %r, %r)' % (q, th.tolist(), di, ai), ctx.call(pol.vector_vortex_retarder, q, th, di, ai), want
+        J = cplx(seed, (2, 2), 1000 + i)
+        M = np.asarray(ctx.call(pol.jones_to_mueller, J))
+        ea, eb = U.relerr(M, mueller_ref(J, 1)), U.relerr(M, mueller_ref(J, -1))
+        if abs(ea - eb) > 1e-9:
+            hands.add(1 if ea < eb else -1)
+        return 'jones_to_mueller(%r)' % (J.tolist(),), M, mueller_ref(J, 1 if ea <= eb else -1)
+
+    def verify(i, when):
+        what, got, want = request(i)
+        got = np.asarray(got)
+        if want.shape == (2, 2) and shape is not None and got.ndim > 2:
+            got = _check_batch_copies(ctx, got, shape, 'burst:' + ctor, what)
+        U.check_close(got, want, 1e-12, 'burst:%s:%s' % (ctor, when), 'request %d of %d, %s' % (i, n, what), atol=1e-13)
+        return got
+    first = None
+    for i in range(n):
+        g = verify(i, 'request')
+        if i == case['revisit']:
+            first, first_keep = g, np.array(g, copy=True)
+        if i > case['revisit'] and i % case['stride'] == 0:
+            verify(case['revisit'], 're-visit')
+    verify(case['revisit'], 're-visit')
+    ctx.require(len(hands) <= 1, 'burst:jones_to_mueller:definition', 'handedness convention changed during the burst')
+    if first is not None:
+        U.check_equal(first, first_keep, 'burst:%s:result-overwritten' % ctor, 'the result of request %d changed during the later requests' % case['revisit'])
+
+
 # ---- batches that cross internal block / threshold sizes ---------------------------------------------
 BIG_BASES = {'quick': [2 ** 16, 2 ** 16, 2 ** 16, 2 ** 15, 2 ** 17, 3 * 2 ** 15], 'thorough': [2 ** 16, 2 ** 16, 2 ** 15, 2 ** 17, 3 * 2 ** 15, 3 * 2 ** 16, 2 ** 18]}
 BIG_FIXED = [[300, 300], [130, 520], [1, 65537], [65537], [257, 257], [2, 3, 10923], [182, 181]]
@@ -926,8 +1190,8 @@ def strat_large(tier):
         'rows': st.sampled_from([0, 0, 1, 2, 3, 7, 130, 255]), 'orient': st.sampled_from(['rc', 'cr', 'r1c'])}))
     return st.fixed_dictionaries({'shape': shape, 'what': st.sampled_from(['mueller', 'mueller', 'mueller', 'pauli', 'vortex']), 'seed': U.seeds,
                                   'kind': st.sampled_from(['random', 'unitary', 'unitary', 'structured']), 'jdtype': st.sampled_from(['complex128', 'complex128', 'complex64', 'float64']),
-                                  'layout': st.sampled_from(['C', 'C', 'F']), 'charge': st.sampled_from([1, 2, -2, 3, 0.5, 6]), 'ret': st.sampled_from([2.1, math.pi, 0.4, -1.3]),
-                                  'rotate': st.sampled_from([0.3, 0.0, -1.1])})
+                                  'layout': st.sampled_from(['C', 'C', 'F']), 'charge': st.sampled_from([1, 2, -2, 3, 0.5, 6, 1.5, -0.5, 2.25]), 'ret': st.sampled_from([2.1, math.pi, 0.4, -1.3]),
+                                  'rotate': st.sampled_from([0.3, 0.0, -1.1]), 'tconv': st.sampled_from(['principal', 'zero-to-2pi', 'turns', 'zero-to-2pi'])})
 
 
 def _big_shape(spec):
@@ -1011,12 +1275,29 @@ def _check_large(case, ctx):
 
     if what == 'vortex':
         q, ret, rho = case['charge'], case['ret'], case['rotate']
-        theta = U.relayout(U.rng_of(seed, 5).uniform(-math.pi, math.pi, B), lay)
+        tconv = case.get('tconv', 'principal')
+        t0 = U.rng_of(seed, 5).uniform(-math.pi, math.pi, B)
+        if tconv == 'zero-to-2pi':
+            t0 = np.mod(t0, TWO_PI)
+        elif tconv == 'turns':
+            t0 = t0 * 5
+        theta = U.relayout(t0, lay)
         keep = theta.copy()
-        desc = 'vector_vortex_retarder(%r, theta%s, retardance=%r, rotate=%r)' % (q, list(B), ret, rho)
+        ctx.label('azimuth-convention:' + tconv, 'charge:' + ('integer' if float(q) == int(q) else 'non-integer'))
+        desc = 'vector_vortex_retarder(%r, theta%s in the %s convention, retardance=%r, rotate=%r)' % (q, list(B), tconv, ret, rho)
         V = np.asarray(ctx.call(pol.vector_vortex_retarder, q, theta, retardance=ret, rotate=rho))
         U.check_shape(V, B + (2, 2), 'large:vector_vortex_retarder', desc)
         ctx.require(np.array_equal(theta, keep), 'vector_vortex_retarder:theta-mutated', desc + ' modified theta in place')
+        # every pixel against the pixel-by-pixel construction (harness closed form, vectorised)
+        cq, sq = np.cos(keep * float(q)), np.sin(keep * float(q))
+        core = np.empty(B + (2, 2), complex)
+        core[..., 0, 0], core[..., 0, 1], core[..., 1, 0], core[..., 1, 1] = cq, sq, sq, -cq
+        closed = rot(-rho) @ (math.sin(ret / 2) * core - 1j * math.cos(ret / 2) * I2) @ rot(rho)
+        bad = ~(np.abs(V - closed).max(axis=(-2, -1)) <= 1e-12)
+        if bad.any():
+            k, idx = _first_bad(bad, B)
+            ctx.fail('large:vector_vortex_retarder:batch-vs-pixel-construction', '%s: %d of %d pixels differ from sin(d/2) [[c, s], [s, -c]] - i cos(d/2) I (rotated), first at %s (flat %d, azimuth %r): got %r' % (
+                desc, int(bad.sum()), N, idx, k, float(keep.reshape(N)[k]), V.reshape(N, 2, 2)[k].tolist()))
         e = V @ dag(V)
         bad = ~(np.abs(e - I2).max(axis=(-2, -1)) <= 1e-12)
         if bad.any():
@@ -1119,5 +1400,6 @@ CLAUSES = [
     HypClause('pauli', strat_pauli, check_pauli, examples={'quick': 400, 'thorough': 2000}, shards={'quick': 1, 'thorough': 4}),
     HypClause('propagation', strat_prop, check_prop, examples={'quick': 250, 'thorough': 1500}, shards={'quick': 2, 'thorough': 8}),
     HypClause('add_jones_propagation', strat_global, check_global, examples={'quick': 150, 'thorough': 1000}, shards={'quick': 1, 'thorough': 4}),
+    HypClause('burst', strat_burst, check_burst, examples={'quick': 80, 'thorough': 200}, shards={'quick': 1, 'thorough': 2}),
     HypClause('large_batches', strat_large, check_large, examples={'quick': 10, 'thorough': 60}, shards={'quick': 4, 'thorough': 10}),
 ]
